@@ -24,4 +24,8 @@ for k in range(n):
     print(k, head, "| impl", lab(ie[k]) if k < len(ie) else None, ie[k][1] if k < len(ie) else None,
           "| model", lab(me[k]) if k < len(me) else None, me[k][1] if k < len(me) else None)
 print("trailers", it, mt)
+for a in sys.argv[2:]:          # further arguments: event indices to print in full
+    print("EVENT", a, pc.event_text(c, int(a)))
+    print(" impl ", ie[int(a)] if int(a) < len(ie) else None)
+    print(" model", me[int(a)] if int(a) < len(me) else None)
 shutil.rmtree(work)
